@@ -302,6 +302,7 @@ def _field_ctor(prog, f):
         return ["self.%s = vsc.rangelist(%s)" % (n, ", ".join(items))]
     if k == "list":
         elem, size, lrand, randsz = f[2], f[3], f[4], f[5]
+        presized = len(f) > 6 and f[6] == "presized" and elem[0] == "obj" and not randsz      # list of objects created with sz=N
         if elem[0] in ("u", "s"):
             et = "vsc.%s(%d)" % ("int_t" if elem[0] == "s" else "bit_t", elem[1])
         elif elem[0] == "enum":
@@ -311,10 +312,10 @@ def _field_ctor(prog, f):
         if randsz:
             lines = ["self.%s = vsc.randsz_list_t(%s)" % (n, et)]
         elif lrand:
-            lines = ["self.%s = vsc.rand_list_t(%s%s)" % (n, et, (", sz=%d" % size) if elem[0] != "obj" and size else "")]
+            lines = ["self.%s = vsc.rand_list_t(%s%s)" % (n, et, (", sz=%d" % size) if (elem[0] != "obj" or presized) and size else "")]
         else:
-            lines = ["self.%s = vsc.list_t(%s%s)" % (n, et, (", sz=%d" % size) if elem[0] != "obj" and size else "")]
-        if elem[0] == "obj" or randsz:
+            lines = ["self.%s = vsc.list_t(%s%s)" % (n, et, (", sz=%d" % size) if (elem[0] != "obj" or presized) and size else "")]
+        if (elem[0] == "obj" and not presized) or randsz:
             if size:
                 if elem[0] == "obj":
                     lines.append("for _i in range(%d): self.%s.append(%s())" % (size, n, elem[1]))
